@@ -83,6 +83,7 @@ void undef_macro(char *name) {}
 char *search_include_paths(char *f) { return NULL; }
 File **get_input_files(void) { static File *none[1]; return none; }
 void hashmap_test(void) {}
+void join_adjacent_string_literals(Token *tok) {}
 static Token eof_tok = {.kind = TK_EOF};
 static Obj dummy_prog;
 
